@@ -6,7 +6,7 @@ CFG = dict(
           "call took from the wire), C09_sticky and C09_failfast (a call reaching its fail-fast check or - the D-09 window - its registration "
           "after the failure returns the connection error in that step, without registering, writing or waiting) C09_after_fails (ONE trace theorem: a call started after the failure was recorded only ever returns the connection error, never registers / takes / succeeds, and has returned in every quiescent state) and (T) C09_measure / C09_terminates / C09_maximal_quiescent / C09_reaches_quiescent (every internal rule strictly decreases the measure mu: every run of internal rules is finite and ends, when maximal, in a quiescent state) in coq/Props/C09.v, over all label sequences of coq/Model/Client.v.",
     props="Props/C09.v",
-    theorems=["C09_settles", "C09_dead", "C09_loops", "C09_no_fabrication", "C09_sticky", "C09_failfast", "C09_after_fails",
+    theorems=["C09_settles", "C09_dead", "C09_loops", "C09_no_fabrication", "C09_sticky", "C09_failfast", "C09_after_fails", "C09_eof_not_success",
               "C09_measure", "C09_terminates", "C09_maximal_quiescent", "C09_reaches_quiescent"],
     imports=["Model.Client", "Check.ClientC", "Check.ClientSpec", "Check.C09c"],
     case_type="c09case",
@@ -29,7 +29,8 @@ CFG = dict(
          "failure; plus RecvMsg parked at cs.recv.checked x failure; pending operations and goroutine census observed at every quiescent point; (b) TestC09Errors: a stream (Header, RecvMsg) and a unary "
          "call in flight x the transport's Read failing with 8 error VALUES (plain, io.EOF, wrapped EOF, a websocket-style EOF text, "
          "io.ErrUnexpectedEOF, context.Canceled, context.DeadlineExceeded, a gRPC status error) after 0..2 response envelopes and no "
-         "trailer: every later RecvMsg / Header / Invoke must return a non-EOF error; (c) TestC09Storm: retry storms inside a bubble "
+         "trailer: every later RecvMsg / Header / Invoke must return a non-EOF error AND the six results must equal those of the model's run of the "
+         "same scenario (reason 1: the model is parametric in the error value, the code must be too); (c) TestC09Storm: retry storms inside a bubble "
          "with real parallelism: 3000 (thorough 3000 x 12 rounds) unary calls and streams in flight, the read fails, every caller "
          "retries once the moment its call fails (the window INSIDE closeError); at quiescence (exact, no timeout) no retry may be "
          "pending and none may have succeeded",
